@@ -12,6 +12,7 @@ Record Ops : Type := mkOps {
   ofZ : Z -> T;                               (* float64(int) *)
   otoZ : T -> Z;                               (* int(x): truncation toward o0 *)
   ofloor : T -> T; oceil : T -> T;
+  ofmod : T -> T -> T;                         (* math.Mod *)
   osin : T -> T; ocos : T -> T; otan : T -> T;
   oatan : T -> T; oatan2 : T -> T -> T; oacos : T -> T;
   opi : T;
